@@ -40,8 +40,10 @@ type Op struct {
 	// mine
 	New   int       `json:"new"`   // number of new requests with seeded specs (TLC behaviours)
 	Specs []ReqSpec `json:"specs"` // explicit new requests
-	Fee   int       `json:"fee"`   // fee level 0 = unchanged (TLC behaviours)
+	Fee   *int      `json:"fee"`   // absolute fee level (see feeLevels); nil = unchanged
 	Fees  *Fees     `json:"fees"`
+	Fast  bool      `json:"fast"`  // the seeded new request needs no fetch
+	Flags [][]int   `json:"flags"` // TLC behaviours: the model's prediction of the sent flags after the step
 	Rev   bool      `json:"rev"` // relay the services' transactions to the producer in reverse order
 	// node steps
 	Node   int    `json:"node"`
@@ -59,6 +61,7 @@ type snapEntry struct {
 	main, backup string
 	sent         bool
 	has          bool
+	h            int // height of the node's ledger when this build was first seen
 }
 
 type sigRec struct {
@@ -77,6 +80,7 @@ type runner struct {
 	ans    map[string]string               // node/inc/req -> answer class its fetch got
 	nmsg   int
 	nsent  int
+	lvl    int
 	failed string
 }
 
@@ -198,8 +202,12 @@ func (r *runner) observe(ev map[string]any) {
 			if e.has {
 				e.main, e.backup = v.Main.Hash, v.Backup.Hash
 			}
-			cur[id] = e
 			o, was := old[id]
+			e.h = o.h
+			if e.has && (!was || o.main != e.main || o.backup != e.backup) {
+				e.h = nd.H
+			}
+			cur[id] = e
 			if e.has && (!was || o.main != e.main || o.backup != e.backup) {
 				a := r.ans[r.key(nd.Idx, "/", nd.Inc, "/", id)]
 				if q := w.Reqs[id]; q != nil && fast(q.Spec.Cls) {
@@ -254,7 +262,16 @@ func (r *runner) observe(ev map[string]any) {
 			}
 		}
 		wit, pushes, junk := w.Witness(s.Tx)
+		s.BH = int(s.H)
+		if se, ok := r.snap[[2]int{s.Node, s.Inc}][id]; ok && se.has {
+			s.BH = se.h
+		}
+		keys := []int{}
+		if v := views[s.Node][id]; v != nil && v.Main != nil {
+			keys = v.Main.Signers
+		}
 		e := map[string]any{"node": s.Node, "req": int(id), "hash": shash(s.Tx), "which": which, "wit": wit, "pushes": pushes, "junk": junk,
+			"bh": s.BH, "keys": keys, "desig": w.FactsOf(w.Nodes[s.Node].BC).Desig, "fast": w.Reqs[id] != nil && fast(w.Reqs[id].Spec.Cls),
 			"h": int(s.H), "vub": int(s.Tx.ValidUntilBlock), "ok": s.Err == nil, "pending": s.Pending, "conflict": s.Conflict, "err": errClass(s.Err),
 			"code": s.Tx.Attributes[0].Value.(*transaction.OracleResponse).Code.String()}
 		sent = append(sent, e)
@@ -300,6 +317,33 @@ func errClass(err error) string {
 	return s
 }
 
+// compareFlags compares the model's prediction of the sent flags with the real services (drift, never a verdict).
+func (r *runner) compareFlags(op Op) {
+	want := map[[2]int]bool{}
+	for _, p := range op.Flags {
+		if len(p) == 2 {
+			want[[2]int{p[0], p[1]}] = true
+		}
+	}
+	got := map[[2]int]bool{}
+	for _, nd := range r.w.Nodes {
+		for id, e := range r.snap[[2]int{nd.Idx, nd.Inc}] {
+			if q := r.w.Reqs[id]; q != nil && e.sent {
+				got[[2]int{nd.Idx, q.Seq}] = true
+			}
+		}
+	}
+	same := len(want) == len(got)
+	for k := range want {
+		same = same && got[k]
+	}
+	r.res.Inc("oraclesvc_flag_predictions", 1)
+	if !same {
+		r.res.Inc("oraclesvc_flag_drift", 1)
+		r.res.AddDrift(map[string]any{"part": "oraclesvc", "world": r.src, "op": op.Op, "model_sent": fmt.Sprint(op.Flags), "real_sent": fmt.Sprint(got)})
+	}
+}
+
 func (r *runner) req(seq int) *Req {
 	if seq < 1 || seq > len(r.w.Order) {
 		return nil
@@ -314,16 +358,25 @@ func (r *runner) node(i int) *Node {
 	return r.w.Nodes[i]
 }
 
-func feeLevel(l int) *Fees {
-	switch l {
-	case 1:
-		return &Fees{Fpb: 1500, Attr: -1}
-	case 2:
-		return &Fees{Fpb: 700, Eff: 40, Attr: -1}
-	case 3:
-		return &Fees{Eff: 25, Attr: -1}
+// feeLevels are the fee policies the schedules switch between: fee per byte, exec fee factor, OracleResponse attribute fee.
+var feeLevels = [][3]int64{{1000, 30, 0}, {1500, 30, 0}, {700, 40, 0}, {1000, 25, 0}, {1000, 30, 100_0000}}
+
+func feeChange(from, to int) *Fees {
+	if from == to || to < 0 || to >= len(feeLevels) {
+		return nil
 	}
-	return nil
+	a, b := feeLevels[from], feeLevels[to]
+	f := &Fees{Attr: -1}
+	if a[0] != b[0] {
+		f.Fpb = b[0]
+	}
+	if a[1] != b[1] {
+		f.Eff = b[1]
+	}
+	if a[2] != b[2] {
+		f.Attr = b[2]
+	}
+	return f
 }
 
 // step executes one op; ops that the real world does not enable are skipped (returns false).
@@ -334,11 +387,18 @@ func (r *runner) step(op Op) bool {
 		rel := w.Relay(op.Rev)
 		specs := op.Specs
 		for i := 0; i < op.New; i++ {
-			specs = append(specs, randSpec(r.rng))
+			sp := randSpec(r.rng)
+			for fast(sp.Cls) != op.Fast {
+				sp = randSpec(r.rng)
+			}
+			specs = append(specs, sp)
 		}
 		fees := op.Fees
-		if fees == nil {
-			fees = feeLevel(op.Fee)
+		if fees == nil && op.Fee != nil {
+			fees = feeChange(r.lvl, *op.Fee)
+			if fees != nil {
+				r.lvl = *op.Fee
+			}
 		}
 		var desig []int
 		if len(op.Desig) > 0 {
@@ -358,7 +418,8 @@ func (r *runner) step(op Op) bool {
 		for _, x := range rel {
 			id, _ := respID(x.S.Tx)
 			rr = append(rr, map[string]any{"node": x.S.Node, "req": int(id), "hash": shash(x.S.Tx), "ok": x.Err == nil, "err": errClass(x.Err),
-				"pending": x.Pending, "conflict": x.Conflict, "h": int(x.H), "vub": int(x.S.Tx.ValidUntilBlock)})
+				"pending": x.Pending, "conflict": x.Conflict, "h": int(x.H), "vub": int(x.S.Tx.ValidUntilBlock), "bh": x.S.BH,
+				"keys": w.view(x.S.Tx).Signers, "desig": w.FactsOf(w.P).Desig, "fast": w.Reqs[id] != nil && fast(w.Reqs[id].Spec.Cls)})
 			r.res.Count(map[string]any{"k": "relay", "ok": x.Err == nil, "pending": x.Pending, "conflict": x.Conflict, "late": x.S.Tx.ValidUntilBlock <= x.H})
 		}
 		ii := []any{}
@@ -593,8 +654,14 @@ func runWorld(t *testing.T, res *vh.Result, tr *vh.Trace, src string, seed int64
 		if r.failed != "" {
 			break
 		}
+		if op.Op == "relay" || op.Op == "forge" {
+			continue // model-only steps: the harness relays at every mine and forges when the signature is delivered
+		}
 		if r.step(op) {
 			done++
+			if op.Flags != nil {
+				r.compareFlags(op)
+			}
 		} else {
 			skipped++
 		}
@@ -651,7 +718,8 @@ func randomOps(rng *rand.Rand, n int) []Op {
 				nreq += k
 			}
 			if policy && rng.Intn(4) == 0 {
-				op.Fee = 1 + rng.Intn(3)
+				l := rng.Intn(len(feeLevels))
+				op.Fee = &l
 			}
 			if policy && rng.Intn(6) == 0 {
 				k := 1 + rng.Intn(n)
@@ -691,7 +759,8 @@ func randomOps(rng *rand.Rand, n int) []Op {
 	return ops
 }
 
-// scripted worlds: the happy path, both transactions collecting M signatures, and the three reproductions.
+// scripted worlds: the happy path, both transactions collecting M signatures, and regressions of the three defects the
+// extension found and the lead repaired (9e0aa89 InsufficientFunds size, 99cbbbc intake race, 8ec6243 attribute fee).
 func scripted(n int) map[string][]Op {
 	all := make([]int, n)
 	for i := range all {
@@ -723,6 +792,7 @@ func scripted(n int) map[string][]Op {
 	ansAll := func(req int) []Op {
 		return everyone(func(i int) []Op { return []Op{{Op: "answer", Node: i, Req: req}} })
 	}
+	one := 1
 	m := map[string][]Op{}
 	m["happy"] = cat([]Op{{Op: "init", N: n, Inc: 4, Desig: all}, {Op: "mine", Specs: []ReqSpec{{Cls: "ok", Filter: "$.g", Gas: 100}, {Cls: "notfound", Gas: 100}}}},
 		dl, ansAll(1), ansAll(2), sigsAll(1, "main"), sigsAll(2, "main"), []Op{{Op: "mine"}}, dl, []Op{{Op: "final"}})
@@ -752,11 +822,15 @@ func scripted(n int) map[string][]Op {
 		dl, sigsAll(1, "main"), sigsAll(2, "main"), []Op{{Op: "final"}})
 	m["repro-attrfee"] = cat([]Op{{Op: "init", N: n, Inc: 4, Desig: all}, {Op: "mine", Specs: []ReqSpec{{Cls: "ok", Gas: 100}}, Fees: &Fees{Attr: 100_0000}}},
 		dl, ansAll(1), sigsAll(1, "main"), []Op{{Op: "final"}})
+	// residual of the intake window: the block that carries a request needing no fetch also changes the fee policy; a
+	// node that processes the request while the block is being stored reads the previous policy
+	m["residual-feewindow"] = cat([]Op{{Op: "init", N: n, Inc: 4, Desig: all}, {Op: "mine", Specs: []ReqSpec{{Cls: "ftp", Gas: 100}}, Fee: &one}},
+		dl, sigsAll(1, "main"), []Op{{Op: "final"}})
 	// restart of every node (ledger too) between the answer and the signatures; a redesignation in between
 	sub := all[:n-1]
 	m["restart-redesig"] = cat([]Op{{Op: "init", N: n, Inc: 5, Desig: all}, {Op: "mine", Specs: []ReqSpec{{Cls: "ok", Gas: 100}, {Cls: "forbidden", Gas: 100}}}},
 		dl, ansAll(1), everyone(func(i int) []Op { return []Op{{Op: "restart", Node: i, Ledger: i%2 == 0}} }), ansAll(1), ansAll(2),
-		[]Op{{Op: "mine", Desig: sub, Fee: 1}}, dl, sigsAll(1, "main"), everyone(func(i int) []Op { return []Op{{Op: "restart", Node: i, Ledger: i%2 == 1}} }),
+		[]Op{{Op: "mine", Desig: sub, Fee: &one}}, dl, sigsAll(1, "main"), everyone(func(i int) []Op { return []Op{{Op: "restart", Node: i, Ledger: i%2 == 1}} }),
 		[]Op{{Op: "final"}})
 	return m
 }
